@@ -16,6 +16,25 @@ func clMergeHeapReset(c *Ctx) {
 		fn := p.Func("skiplist", "MergeIterator", name)
 		fi := p.Info(fn)
 		var appends, resets []*ssa.Store
+		var appendCalls []ssa.Instruction // calls of a shared helper that appends one valid cursor
+		for _, in := range fi.Instrs {
+			cc := callOf(in)
+			if cc == nil || cc.StaticCallee() == nil || p.helperCall(in) != nil {
+				continue
+			}
+			h := cc.StaticCallee()
+			if h.Blocks == nil || h.Package() != fn.Package() || h == fn {
+				continue
+			}
+			hfi := p.Info(h)
+			for _, st := range p.storesTo(h, fH) {
+				if call, ok := strip(st.Val).(*ssa.Call); ok && isBuiltin(call, "append") {
+					valid := p.Func("skiplist", "Iterator", "Valid")
+					c.Check(hfi.guardedByCall(st, true, valid), h, st, "a cursor enters the heap only if it is valid", "an exhausted cursor (standing on the tail sentinel) is pushed")
+					appendCalls = append(appendCalls, in)
+				}
+			}
+		}
 		for _, st := range p.storesTo(fn, fH) {
 			if call, ok := strip(st.Val).(*ssa.Call); ok && isBuiltin(call, "append") {
 				appends = append(appends, st)
@@ -33,14 +52,21 @@ func clMergeHeapReset(c *Ctx) {
 				resets = append(resets, st)
 			}
 		}
-		if len(appends) == 0 {
+		if len(appends) == 0 && len(appendCalls) == 0 {
 			continue
 		}
 		n++
 		ok := false
+		var firstApp ssa.Instruction
+		var apps []ssa.Instruction
+		for _, a := range appends {
+			apps = append(apps, a)
+		}
+		apps = append(apps, appendCalls...)
+		firstApp = apps[0]
 		for _, r := range resets {
 			all := true
-			for _, a := range appends {
+			for _, a := range apps {
 				if !fi.Dominates(r, a) || fi.inLoop(r) {
 					all = false
 				}
@@ -49,7 +75,7 @@ func clMergeHeapReset(c *Ctx) {
 				ok = true
 			}
 		}
-		c.Check(ok, fn, appends[0], "re-positioning resets the merge heap", "the cursors of the previous positioning stay in the heap: repositioning during a scan yields duplicates and walks stale cursors past the tail")
+		c.Check(ok, fn, firstApp, "re-positioning resets the merge heap", "the cursors of the previous positioning stay in the heap: repositioning during a scan yields duplicates and walks stale cursors past the tail")
 		// heap.Init after all pushes, then Next establishes the first element
 		var hinit, nx ssa.Instruction
 		for _, in := range fi.Instrs {
@@ -61,7 +87,7 @@ func clMergeHeapReset(c *Ctx) {
 			}
 		}
 		okInit := hinit != nil && nx != nil && fi.Dominates(hinit, nx)
-		for _, a := range appends {
+		for _, a := range apps {
 			if hinit == nil || fi.Reaches(hinit, a) {
 				okInit = false
 			}
